@@ -6,6 +6,14 @@
 (*   kind "equalx"  C08: x[i] = y[i] except at exempt positions, where y[i] = z[i]        *)
 (*                  (x plain run, y coloured run, z ids of the coloured input lines that  *)
 (*                  the row passes through, 0 if none; ex = exempt flags)                 *)
+(*   kind "equalp"  C08: plain run x, coloured run y: row i must be identical in both     *)
+(*                  runs, unless in both it is the pass-through of the same input line k  *)
+(*                  (kx[i] = ky[i] = k: the row begins with the bytes of plain resp.      *)
+(*                  coloured input line k) followed by the same decoration (rx[i] =       *)
+(*                  ry[i]): raw-styled elements and passed-through text keep the input's  *)
+(*                  colours                                                               *)
+(*   kind "cells"   C08 moved lines: the rendition of every character of the output row   *)
+(*                  (y: <<char, fg, bg, attrs>>) equals that of the input line (x)         *)
 EXTENDS Naturals, Sequences, FiniteSets, TLC, Json, IOUtils
 
 Rec == ndJsonDeserialize(IOEnv.TRACE)
@@ -20,6 +28,12 @@ FirstDiff(a, b) == LET n == IF Len(a) < Len(b) THEN Len(a) ELSE Len(b)
 Judge(e) ==
   CASE e.kind = "concat" -> FirstDiff(e.x \o e.y, e.z)
     [] e.kind = "equal"  -> FirstDiff(e.x, e.y)
+    [] e.kind = "cells"  -> FirstDiff(e.x, e.y)
+    [] e.kind = "equalp" ->
+         IF Len(e.x) # Len(e.y) THEN (IF Len(e.x) < Len(e.y) THEN Len(e.x) ELSE Len(e.y)) + 1
+         ELSE LET bad == {i \in DOMAIN e.x : e.x[i] # e.y[i] /\
+                            ~(e.kx[i] # 0 /\ e.kx[i] = e.ky[i] /\ e.rx[i] = e.ry[i])}
+              IN IF bad = {} THEN 0 ELSE CHOOSE i \in bad : \A j \in bad : i <= j
     [] e.kind = "equalx" ->
          IF Len(e.x) # Len(e.y) THEN (IF Len(e.x) < Len(e.y) THEN Len(e.x) ELSE Len(e.y)) + 1
          ELSE LET bad == {i \in DOMAIN e.x : IF e.ex[i] THEN e.y[i] # e.z[i] ELSE e.x[i] # e.y[i]}
